@@ -15,7 +15,7 @@ MOD = 'mirsym.checks.c06'
 
 JSX = {
     'call': '<Foo>{{f1()}}</Foo>', 'ident': '<Foo>{{v1}}</Foo>', 'frag': '<>x</>', 'dir': '<div v-foo={{v1}} v-show={{v2}}/>', 'text': '<p>hi</p>', 'model': '<input v-model={{v1}}/>',
-    'on': '<div on={{o1}}/>', 'spread': '<div {{...s1}} id="a"/>', 'two-calls': '<Foo><C1>{{f1()}}</C1><C1>{{f1(v2)}}</C1></Foo>', 'nested-call': '<Foo>{{f1(<C1>{{f1()}}</C1>)}}</Foo>',
+    'on': '<div on={{o1}}/>', 'onC': '<C1 nativeOn={{o1}}/>', 'on2': '<div on={{o1}} id="a"/>', 'spread': '<div {{...s1}} id="a"/>', 'two-calls': '<Foo><C1>{{f1()}}</C1><C1>{{f1(v2)}}</C1></Foo>', 'nested-call': '<Foo>{{f1(<C1>{{f1()}}</C1>)}}</Foo>',
     'attr-call': '<Foo a=<C1>{{f1()}}</C1>/>', 'kids': '<Foo>a{{v2}}</Foo>',
 }
 CONTEXTS = {
@@ -32,6 +32,8 @@ CONTEXTS = {
     'fn-then-empty-if': 'function g() {{ const r = @; if (v1) {{}} return r; }}', 'fn-then-empty-catch': 'function g() {{ const r = @; try {{ f1(); }} catch {{}} return r; }}',
     'fn-then-empty-fn': 'function g() {{ const r = @; function noop() {{}} return r; }}', 'arrow-then-empty-block': 'const g = () => {{ const r = @; {{}} return r; }};',
     'assign-then-empty': 'function g() {{ v1 = <Foo>{{v1}}</Foo>; class E {{ m() {{}} }} return v1; }}',
+    'assign-in-default-fn': 'function g(p1, b = (p1 = <Foo>{{p1}}</Foo>)) {{ return b; }}', 'assign-in-default-arrow': 'const g = (p1, b = (p1 = <Foo>{{p1}}</Foo>)) => b;',
+    'assign-in-default-method': 'class K {{ m(p1, b = (p1 = <Foo>{{p1}}</Foo>)) {{ return b; }} }}', 'assign-user-slot-name': 'let _slot; _slot = <Foo>{{f1()}}</Foo>;',
     'iife': '(() => {{ return @; }})();', 'async-arrow': 'const g = async () => @;', 'generator': 'function* g() {{ yield @; }}', 'if-no-block': 'function g() {{ if (v1) return @; return null; }}',
     'arrow-in-default': 'function g(cb = () => @) {{ return cb; }}', 'two-fns': 'function g() {{ return @; }}\nfunction h() {{ return @; }}', 'arrow-sibling': 'const g = () => @, h = () => @;',
 }
@@ -47,8 +49,9 @@ def make_skeleton(spec):
     body = ctxt.replace('@', j)
     pre, post = SIBLINGS[spec.get('sib', 'none')]
     src = c10.PRELUDE10 + pre + body + post + '\n'
-    opts = {'optimize': 'sym', 'transform_on': spec.get('jsx') == 'on'}
-    return Skeleton('c06#%s|%s|%s' % (spec['ctx'], spec.get('jsx', 'call'), spec.get('sib', 'none')), src, [], opts, meta={'family': 'c06'})
+    opts = {'optimize': 'sym', 'transform_on': spec.get('jsx') in ('on', 'onC', 'on2')}
+    return Skeleton('c06#%s|%s|%s%s' % (spec['ctx'], spec.get('jsx', 'call'), spec.get('sib', 'none'), '|pragma' if spec.get('pragma') else ''), src, [], opts,
+                    pragma=spec.get('pragma'), meta={'family': 'c06'})
 
 
 # ------------------------------------------------------------------ scope analysis of the emitted module
@@ -253,6 +256,9 @@ def jobs(tier):
     for j in JSX:
         out.append({'ctx': 'module', 'jsx': j})
         out.append({'ctx': 'arrow-expr', 'jsx': j})
+        # with a pragma in force createVNode is not imported: every other helper must still be
+        out.append({'ctx': 'module', 'jsx': j, 'pragma': 'h'})
+        out.append({'ctx': 'fn-body', 'jsx': j, 'pragma': 'h'})
     seen = set(); res = []
     for s in out:
         k = json.dumps(s, sort_keys=True)
@@ -268,6 +274,8 @@ def classify(v, detail):
     c, j, sb = m.groups() if m else ('?', '?', '?')
     info = (detail or {}).get('info') or v.get('info') or {}
     name = re.sub(r'\d+$', '', str(info.get('name', '')))
+    if c.startswith('assign-in-default') and v['obligation'].startswith(('a user variable is only referenced', 'the declaration of a generated name')):
+        return 'self-assignment-snapshot-inside-a-parameter-default-is-hoisted-out-of-the-function'
     grp = 'default-parameter' if 'default' in c else 'class-field' if 'field' in c else 'assignment-snapshot' if c.startswith('assign') or name.startswith('_v') else c
     return '%s [%s] context=%s' % (v['obligation'][:70], name, grp)
 
